@@ -220,6 +220,19 @@ def resOf : Option FetchRes → Option (EndKind × List JWK)
   | some (.keys ks) => some (.ok, ks)
   | some (.fail k) => some (k, [])
 
+/-- **download classification.** What the code makes of an answer of the endpoint — as determined by the regenerated decision
+    structure of `HttpRequest` (status test first, the WHOLE body through `json.Unmarshal`, its error returned) and of
+    `jsonWebKeySet.UnmarshalJSON` (undecodable entries skipped) — is exactly what the specification says the answer is: a
+    successful download of the document's known keys iff status 200 and the whole body is one JWKS document, a failed one otherwise. -/
+theorem jwks_download_classification (a : Answer) :
+    resOf (some (FetchRes.ofAnswer fixedFacts a)) = some (endOf (some a)) := by
+  obtain ⟨st, wf, whole, first⟩ := a
+  cases st <;> cases wf <;> cases whole <;> simp [FetchRes.ofAnswer, fixedFacts, endOf, Answer.served, resOf]
+
+theorem ofAnswer_fail {a : Answer} {k : EndKind} (h : FetchRes.ofAnswer fixedFacts a = .fail k) : k ≠ .ok ∧ k ≠ .cancelled := by
+  obtain ⟨st, wf, whole, first⟩ := a
+  cases st <;> cases wf <;> cases whole <;> simp [FetchRes.ofAnswer, fixedFacts] at h <;> subst h <;> simp
+
 /-- what is known of a finished call -/
 def DoneOK (s : State) (tok : JWS) (live : Bool) : Outcome → Prop
   | .payload b => b = tok.payload.bytes ∧ ∃ f ks, f < s.nf ∧ (s.fetches f).res = some (.keys ks) ∧ refAccepts ks tok = true
@@ -236,7 +249,8 @@ def CallerInv (cfg : JwksSet) (s : State) (m : MState) (c : Cid) : Prop :=
       (∀ f, (m.callers c).stale f = true → m.announced f = true)) ∧
   (match (s.callers c).pc with
    | .idle => True
-   | .atCache => (m.callers c).owned = 0 ∧ ((m.callers c).hit = true → refAccepts s.cached (s.callers c).tok = true)
+   | .atCache => (m.callers c).owned = 0 ∧ ((m.callers c).hit = true → refAccepts s.cached (s.callers c).tok = true) ∧
+       (refAccepts s.cached (s.callers c).tok = true → (m.callers c).mayHit = true)
    | .atLock seen => (m.callers c).owned = 0 ∧ (m.callers c).hit = false ∧ cacheAns cfg.skipRemoteCheck seen (s.callers c).tok = .miss
    | .atSelect g seen =>
        (m.callers c).hit = false ∧ cacheAns cfg.skipRemoteCheck seen (s.callers c).tok = .miss ∧ g < s.nf ∧
@@ -308,11 +322,14 @@ theorem callerInv_congr {cfg : JwksSet} {s s' : State} {m m' : MState} {c : Cid}
 theorem okKeys_of_res {m : MState} {f : Fid} {ks : List JWK} (h : m.res f = some (.ok, ks)) : okKeys m f = some ks := by
   simp [okKeys, h]
 
-theorem acceptJustified_of {m : MState} {tok : JWS} {f : Fid} {ks : List JWK}
-    (hf : f < m.nf) (hk : okKeys m f = some ks) (ha : refAccepts ks tok = true) : acceptJustified m tok = true := by
+theorem acceptJustified_of_mayHit {m : MState} {mc : MCaller} (h : mc.mayHit = true) : acceptJustified m mc = true := by
+  simp [acceptJustified, h]
+
+theorem acceptJustified_of {m : MState} {mc : MCaller} {f : Fid} {ks : List JWK}
+    (hf : f < m.nf) (hk : okKeys m f = some ks) (hs : mc.stale f = false) (ha : refAccepts ks mc.tok = true) : acceptJustified m mc = true := by
   unfold acceptJustified
-  rw [List.any_eq_true]
-  exact ⟨f, List.mem_range.mpr hf, by simp [hk, ha]⟩
+  rw [Bool.or_eq_true, List.any_eq_true]
+  exact Or.inr ⟨f, List.mem_range.mpr hf, by simp [hk, hs, ha]⟩
 
 theorem rejectJustified_of {m : MState} {mc : MCaller} {f : Fid} {ks : List JWK}
     (hf : f < m.nf) (hk : okKeys m f = some ks)
@@ -497,7 +514,7 @@ theorem inv_cacheRead {c : Cid} (hI : Inv cfg s m)
     unfold CallerInv at hC
     rw [hpc] at hC
     simp only [ne_eq, reduceCtorEq, not_false_eq_true, forall_const, bne_iff_ne] at hC
-    obtain ⟨hst, hfin, ⟨htok, hcan, hstale⟩, hown, hhit⟩ := hC
+    obtain ⟨hst, hfin, ⟨htok, hcan, hstale⟩, hown, hhit, hmay⟩ := hC
     replace hst : (m.callers c).started = true := by rw [hst]; decide
     rw [cachePhase_eq cfg hd] at hx
     have hspec := cacheAns_spec cfg.skipRemoteCheck s.cached (s.callers c).tok
@@ -538,8 +555,7 @@ theorem inv_cacheRead {c : Cid} (hI : Inv cfg s m)
       have hj : judge m c (.payload p.bytes) = none := by
         unfold judge
         simp only [hst, hfin, hpc, htok, hp]
-        have : acceptJustified m (s.callers c).tok = true :=
-          acceptJustified_of (f := f) (by rw [hI.nf]; exact hf) (okKeys_of_res (by rw [hI.res, hr]; rfl)) hacc
+        have : acceptJustified m (m.callers c) = true := acceptJustified_of_mayHit (hmay hacc)
         simp [this]
       simp only [mrun_cons, mrun_nil, mstep, hj]
       refine inv_caller_update hI c rfl rfl (fun c' h => by simp [upd, h]) (fun c' h => by simp [upd, h]) ?_ ?_
@@ -637,7 +653,7 @@ theorem inv_wake {c : Cid} {viaCtx : Bool} (hI : Inv cfg s m)
           refine tail _ ?_ ⟨by rw [hp], g, ks, hg, hres, hra⟩
           unfold judge
           simp only [hst, hfin, htok, hp]
-          have : acceptJustified m (s.callers c).tok = true := acceptJustified_of (by rw [hI.nf]; exact hg) hok hra
+          have : acceptJustified m (m.callers c) = true := acceptJustified_of (by rw [hI.nf]; exact hg) hok hsg (by rw [htok]; exact hra)
           simp [this]
         | noKey =>
           simp only [hr, classify_noKey, Option.some.injEq, Prod.mk.injEq] at hx hra
@@ -696,8 +712,8 @@ theorem mstep_fetchBegin_ok {m : MState} {f : Fid} {c : Cid} (h1 : anyOpen m = f
       { m with nf := max m.nf (f + 1), begun := upd m.begun f true, callers := upd m.callers c { m.callers c with owned := 1 } } := by
   simp [mstep, h1, h2, h3, h4]
 
-theorem mstep_fetchEnd_ok {m : MState} {f : Fid} {k : EndKind} (h1 : m.begun f = true) (h2 : m.res f = none) :
-    mstep m (.fetchEnd f k) = { m with res := upd m.res f (some (k, if k == .ok then decode m.served else [])) } := by
+theorem mstep_fetchEnd_ok {m : MState} {f : Fid} {a : Option Answer} (h1 : m.begun f = true) (h2 : m.res f = none) :
+    mstep m (.fetchEnd f a) = { m with res := upd m.res f (some (endOf a)) } := by
   simp [mstep, h1, h2]
 
 theorem inv_enter {c : Cid} (hI : Inv cfg s m)
@@ -854,14 +870,14 @@ theorem runBlock_fixed_0 {f : Fid} {s : State} (h : (s.fetches f).upc = 0) :
       ({ s with fetches := upd s.fetches f { s.fetches f with upc := 1 } }, [Obs.point (.updater f) "fetched"]) := by
   simp [runBlock, fixedFacts, h, ublock, uop]
 
-theorem inv_respond {f : Fid} {k : EndKind} (hI : Inv cfg s m)
-    (hx : exec fixedFacts GenJwks.logic cfg s (.respond f k) = some (s', obs)) : Inv cfg s' (mrun m obs) := by
+theorem inv_respond {f : Fid} {a : Answer} (hI : Inv cfg s m)
+    (hx : exec fixedFacts GenJwks.logic cfg s (.respond f a) = some (s', obs)) : Inv cfg s' (mrun m obs) := by
   simp only [exec] at hx
   split at hx
   · simp at hx
   · rename_i hcond
     simp only [Bool.or_eq_true, not_or, Bool.not_eq_true, bne_eq_false_iff_eq, Bool.not_eq_false', decide_eq_true_eq, beq_eq_false_iff_ne, ne_eq] at hcond
-    obtain ⟨⟨⟨hcr, hkc⟩, hf⟩, hres⟩ := hcond
+    obtain ⟨⟨hcr, hf⟩, hres⟩ := hcond
     have hupc0 : (s.fetches f).upc = 0 := (hI.upc f).2.mp hres
     rw [runBlock_fixed_0 (by simpa [upd] using hupc0)] at hx
     simp only [Option.some.injEq, Prod.mk.injEq, List.cons_append, List.nil_append] at hx
@@ -870,8 +886,7 @@ theorem inv_respond {f : Fid} {k : EndKind} (hI : Inv cfg s m)
     have hr0 : m.res f = none := by rw [hI.res, hres]; rfl
     rw [mrun_cons, mstep_fetchEnd_ok hb hr0]
     simp only [mrun_cons, mrun_nil, mstep, upd_same, upd_upd]
-    have hofEnd : resOf (some (FetchRes.ofEnd s.served k)) = some (k, if (k == EndKind.ok) = true then decode m.served else []) := by
-      rw [hI.served]; cases k <;> simp [FetchRes.ofEnd, resOf]
+    have hofEnd := jwks_download_classification a
     refine { noViol := hI.noViol, noCrash := hI.noCrash, skipEq := hI.skipEq, served := hI.served, nf := hI.nf, begun := hI.begun, res := ?_,
              resKind := ?_, fresh := ?_, upc := ?_, sig := ?_, ann := ?_, infl := ?_, others := ?_,
              cache := hI.cache, cacheSafe := ?_, owner := ?_, ownerUniq := ?_, callers := ?_ }
@@ -884,7 +899,7 @@ theorem inv_respond {f : Fid} {k : EndKind} (hI : Inv cfg s m)
       · subst hg
         simp only [upd_same, Option.some.injEq]
         intro h
-        cases k <;> simp_all [FetchRes.ofEnd] <;> (subst h; simp)
+        exact ofAnswer_fail h
       · simpa [upd, hg] using hI.resKind g k'
     · intro g hg
       have hne : g ≠ f := by dsimp only at hg; intro h; rw [h] at hg; exact absurd hf (Nat.not_lt.mpr hg)
@@ -924,7 +939,7 @@ theorem inv_respond {f : Fid} {k : EndKind} (hI : Inv cfg s m)
       · subst hgf; simpa [upd] using hI.owner g hg
       · simpa [upd, hgf] using hI.owner g hg
     · intro g g' hg hg' ho
-      have e : ∀ x, ((upd s.fetches f { owner := (s.fetches f).owner, res := some (FetchRes.ofEnd s.served k), upc := 1, sig := (s.fetches f).sig }) x).owner
+      have e : ∀ x, ((upd s.fetches f { owner := (s.fetches f).owner, res := some (FetchRes.ofAnswer fixedFacts a), upc := 1, sig := (s.fetches f).sig }) x).owner
           = (s.fetches x).owner := by
         intro x; by_cases hx : x = f
         · subst hx; simp [upd]
@@ -1094,12 +1109,15 @@ theorem inv_upd {f : Fid} (hI : Inv cfg s m)
           | idle => trivial
           | atCache =>
             simp only [hpc] at h4 ⊢
-            refine ⟨h4.1, ?_⟩
-            intro hh
-            simp only [Bool.and_eq_true] at hh
             have htk := (h3 (by rw [hpc]; simp)).1
-            rw [← htk]
-            exact hh.2
+            refine ⟨h4.1, ?_, ?_⟩
+            · intro hh
+              simp only [Bool.and_eq_true] at hh
+              rw [← htk]
+              exact hh.2
+            · intro ha
+              rw [← htk] at ha
+              simp [ha]
           | atLock seen =>
             simp only [hpc] at h4 ⊢
             exact ⟨h4.1, by simp [h4.2.1], h4.2.2⟩
@@ -1126,7 +1144,7 @@ theorem inv_step {cfg : JwksSet} (hd : cfg.defaultAlg = "") {s s' : State} {m : 
   | wake c v => exact inv_wake hd hI hx
   | cancel c => exact inv_cancel hI hx
   | rotate ks => exact inv_rotate hI hx
-  | respond f k => exact inv_respond hI hx
+  | respond f a => exact inv_respond hI hx
   | upd f => exact inv_upd hI hx
 
 theorem inv_run {cfg : JwksSet} (hd : cfg.defaultAlg = "") (tr : List Act) :
@@ -1297,6 +1315,13 @@ def wtok (kid : String) (signer pid : Nat) : JWS :=
   { Signatures := [{ Header := { Algorithm := "ES256", KeyID := kid }, signer := some signer, signedAlg := "ES256", signedBytes := pid, signedHdr := { Algorithm := "ES256", KeyID := kid } }],
     payload := { bytes := pid, claims := none } }
 
+/-- answers of the endpoint: the JWKS document of a key set; an error status; a 200 that is not JSON; a 200 whose body is the
+    document of `ks` followed by other bytes -/
+def ansOk (ks : List ServedKey) : Answer := { whole := some ks, first := some ks }
+def ans5xx : Answer := { status200 := false, wellFormed := false }
+def ansBad : Answer := { wellFormed := false }
+def ansTrailing (ks : List ServedKey) : Answer := { wellFormed := false, whole := none, first := some ks }
+
 def outcomes (obs : List Obs) : List (Cid × Outcome) :=
   obs.filterMap fun o => match o with
     | .finish c out => some (c, out)
@@ -1309,22 +1334,22 @@ def verdict (F : Facts) (tr : List Act) : Option (Option String × List (Cid × 
 /-- a run of the CURRENT code's model with a cache hit, a refresh after rotation that verifies, a retired kid rejected after
     one refresh, a failed download, and a cancelled waiter — all judged fine -/
 def traceOK : List Act :=
-  [.rotate [{ jwk := wk1 }], .start 0 (wtok "k1" 2 1), .cacheRead 0, .enter 0, .respond 0 .ok, .upd 0, .wake 0 false,
+  [.rotate [{ jwk := wk1 }], .start 0 (wtok "k1" 2 1), .cacheRead 0, .enter 0, .respond 0 (ansOk [{ jwk := wk1 }]), .upd 0, .wake 0 false,
    .start 1 (wtok "k1" 2 2), .cacheRead 1,
-   .rotate [{ jwk := wk2 }], .start 2 (wtok "k2" 3 3), .cacheRead 2, .enter 2, .start 3 (wtok "k1" 2 4), .respond 1 .ok, .upd 1, .wake 2 false,
+   .rotate [{ jwk := wk2 }], .start 2 (wtok "k2" 3 3), .cacheRead 2, .enter 2, .start 3 (wtok "k1" 2 4), .respond 1 (ansOk [{ jwk := wk2 }]), .upd 1, .wake 2 false,
    .cacheRead 3, .enter 3, .start 4 (wtok "k2" 3 5), .cacheRead 4, .start 5 (wtok "k7" 3 6), .cacheRead 5, .enter 5, .cancel 5, .wake 5 true,
-   .respond 2 .http5xx, .upd 2, .wake 3 false]
+   .respond 2 ans5xx, .upd 2, .wake 3 false]
 
 example : verdict GenJwks.facts traceOK =
-    some (none, [(0, .payload 1), (1, .payload 2), (2, .payload 3), (4, .payload 5), (5, .ctxErr), (3, .fetchErr .http5xx)]) := by decide
+    some (none, [(0, .payload 1), (1, .payload 2), (2, .payload 3), (4, .payload 5), (5, .ctxErr), (3, .fetchErr .http5xx)]) := by rw [facts_bridge]; decide
 
 /-- the schedule of finding F-C13a: the call that started the download is cancelled while another call waits for it -/
 def traceA : List Act :=
   [.rotate [{ jwk := wk1 }], .start 0 (wtok "k1" 2 1), .start 1 (wtok "k1" 2 2), .cacheRead 0, .cacheRead 1,
-   .enter 0, .enter 1, .cancel 0, .wake 0 true, .respond 0 .ok, .upd 0, .wake 1 false]
+   .enter 0, .enter 1, .cancel 0, .wake 0 true, .respond 0 (ansOk [{ jwk := wk1 }]), .upd 0, .wake 1 false]
 
 /-- on the current code the waiter is unaffected … -/
-example : verdict GenJwks.facts traceA = some (none, [(0, .ctxErr), (1, .payload 2)]) := by decide
+example : verdict GenJwks.facts traceA = some (none, [(0, .ctxErr), (1, .payload 2)]) := by rw [facts_bridge]; decide
 
 /-- … and the clause is not vacuous: with the download bound to the first caller's context (the shape before the repair)
     the same cancellation fails the waiter, and the monitor says so -/
@@ -1337,16 +1362,16 @@ theorem jwks_cancel_isolation_needs_detached_ctx :
 /-- the schedule of finding F-C13b: a call starts after the waiters were signalled; with `done` before the critical section
     (the shape before the repair) it is answered from the finished download -/
 def traceB : List Act :=
-  [.rotate [{ jwk := wk1 }], .start 0 (wtok "k9" 2 1), .cacheRead 0, .enter 0, .respond 0 .ok, .upd 0,
+  [.rotate [{ jwk := wk1 }], .start 0 (wtok "k9" 2 1), .cacheRead 0, .enter 0, .respond 0 (ansOk [{ jwk := wk1 }]), .upd 0,
    .rotate [{ jwk := wk1 }, { jwk := wk2 }], .start 1 (wtok "k2" 3 2), .cacheRead 1, .enter 1, .wake 1 false]
 theorem jwks_fresh_needs_done_under_lock :
     verdict { fixedFacts with updBlocks := legacyFacts.updBlocks } traceB = some (some "rejected-without-fresh-key-set", [(1, .noKey)]) := by decide
 
 /-- on the current code that window does not exist: the late call starts its own download and verifies -/
 def traceB' : List Act :=
-  [.rotate [{ jwk := wk1 }], .start 0 (wtok "k9" 2 1), .cacheRead 0, .enter 0, .respond 0 .ok, .upd 0,
-   .rotate [{ jwk := wk1 }, { jwk := wk2 }], .start 1 (wtok "k2" 3 2), .cacheRead 1, .enter 1, .respond 1 .ok, .upd 1, .wake 1 false]
-example : verdict GenJwks.facts traceB' = some (none, [(1, .payload 2)]) := by decide
+  [.rotate [{ jwk := wk1 }], .start 0 (wtok "k9" 2 1), .cacheRead 0, .enter 0, .respond 0 (ansOk [{ jwk := wk1 }]), .upd 0,
+   .rotate [{ jwk := wk1 }, { jwk := wk2 }], .start 1 (wtok "k2" 3 2), .cacheRead 1, .enter 1, .respond 1 (ansOk [{ jwk := wk1 }, { jwk := wk2 }]), .upd 1, .wake 1 false]
+example : verdict GenJwks.facts traceB' = some (none, [(1, .payload 2)]) := by rw [facts_bridge]; decide
 
 /-- single flight depends on the `r.inflight == nil` test -/
 theorem jwks_single_flight_needs_nil_test :
@@ -1357,9 +1382,40 @@ theorem jwks_single_flight_needs_nil_test :
 /-- cache safety depends on the `err == nil` guard of `r.cachedKeys = keys` -/
 theorem jwks_cache_safe_needs_err_guard :
     verdict { fixedFacts with updBlocks := [[.point "fetched"], [.point "ulocked", .store false, .doneField, .point "done", .clear, .point "published"]] }
-      [.rotate [{ jwk := wk1 }], .start 0 (wtok "k1" 2 1), .cacheRead 0, .enter 0, .respond 0 .ok, .upd 0, .wake 0 false,
-       .start 1 (wtok "k9" 2 2), .cacheRead 1, .enter 1, .respond 1 .http5xx, .upd 1, .wake 1 false,
-       .start 2 (wtok "k1" 2 3), .cacheRead 2, .enter 2, .respond 2 .badJson, .upd 2, .wake 2 false]
+      [.rotate [{ jwk := wk1 }], .start 0 (wtok "k1" 2 1), .cacheRead 0, .enter 0, .respond 0 (ansOk [{ jwk := wk1 }]), .upd 0, .wake 0 false,
+       .start 1 (wtok "k9" 2 2), .cacheRead 1, .enter 1, .respond 1 ans5xx, .upd 1, .wake 1 false,
+       .start 2 (wtok "k1" 2 3), .cacheRead 2, .enter 2, .respond 2 ansBad, .upd 2, .wake 2 false]
       = some (some "cached-keys-discarded", [(0, .payload 1), (1, .fetchErr .http5xx), (2, .fetchErr .badJson)]) := by decide
+
+
+/-- a key set followed by other bytes is a failed download on the current code: the waiting call fails, the cache keeps `k1`,
+    nothing is accepted because of it … -/
+def traceTrailing : List Act :=
+  [.start 0 (wtok "k1" 2 1), .cacheRead 0, .enter 0, .respond 0 (ansOk [{ jwk := wk1 }]), .upd 0, .wake 0 false,
+   .start 1 (wtok "k2" 3 2), .cacheRead 1, .enter 1, .respond 1 (ansTrailing [{ jwk := wk2 }]), .upd 1, .wake 1 false,
+   .start 2 (wtok "k1" 2 3), .cacheRead 2]
+example : verdict GenJwks.facts traceTrailing = some (none, [(0, .payload 1), (1, .fetchErr .badJson), (2, .payload 3)]) := by rw [facts_bridge]; decide
+
+/-- … and this depends on `HttpRequest` decoding the WHOLE body: with a streaming decoder (`json.NewDecoder(resp.Body).Decode`,
+    which stops after the first JSON value) the same answer is taken for a successful download of `k2`: the token is accepted,
+    the cached `k1` is gone (call 2 misses the cache), and the monitor objects -/
+theorem jwks_sound_needs_whole_body_decode :
+    verdict { fixedFacts with http := { fixedFacts.http with decodesWholeBody := false } } traceTrailing
+      = some (some "accepted-without-served-key", [(0, .payload 1), (1, .payload 2)]) := by decide
+
+/-- a perfect key set under a status other than 200 is a failed download, because `HttpRequest` tests the status first -/
+theorem jwks_sound_needs_status_check :
+    verdict { fixedFacts with http := { fixedFacts.http with checksStatus := false } }
+      [.start 0 (wtok "k1" 2 1), .cacheRead 0, .enter 0, .respond 0 { ansOk [{ jwk := wk1 }] with status200 := false }, .upd 0, .wake 0 false]
+      = some (some "accepted-without-served-key", [(0, .payload 1)]) := by decide
+
+/-- the statement skeleton of `HttpRequest` that the streaming refactoring produces is read as `decodesWholeBody := false` -/
+example : HttpFacts.ofSkeleton
+    ["resp, err := client.Do(req)", "if err != nil {", "return err", "}", "defer resp.Body.Close()",
+     "if resp.StatusCode != http.StatusOK {", "body, err := io.ReadAll(resp.Body)", "if err != nil {",
+     "return fmt.Errorf(\"unable to read response body: %v\", err)", "}", "var oidcErr oidc.Error", "err = json.Unmarshal(body, &oidcErr)",
+     "if err != nil || oidcErr.ErrorType == \"\" {", "return fmt.Errorf(\"http status not ok: %s %s\", resp.Status, body)", "}", "return &oidcErr", "}",
+     "err = json.NewDecoder(resp.Body).Decode(response)", "if err != nil {", "return fmt.Errorf(\"failed to unmarshal response: %v\", err)", "}", "return nil"]
+    = some { checksStatus := true, decodesWholeBody := false, decodeErrReturned := true } := by decide
 
 end C13
